@@ -220,3 +220,42 @@ Example hash_in_quotes_refuted :
   = Some [(Some "Y", TEndogenous, Some "Y[t] = X[t]['a[t]", Some "self._Y[t] = self._X[t]['self._a[t]"); (Some "X", TExogenous, None, None); (Some "a", TExogenous, None, None)] /\
   view_of (parse_model_nocheck "Y = X['a_b']") = Some [(Some "Y", TEndogenous, Some "Y[t] = X['a_b']", Some "self._Y[t] = self['X', 'a_b']"); (Some "X", TExogenous, None, None)].
 Proof. vm_compute. split; reflexivity. Qed.
+
+(* ---- five more layout defects (second independent review, 2026-10-02) ---- *)
+Definition ff_s : string := String (Ascii.ascii_of_nat 12) "".
+
+(* (a) a blank between the sign and the digits of an index: int('- 1') fails, blanks AROUND the offset are fine *)
+Example index_sign_blank_refuted :
+  parse_model_nocheck "Y = X[- 1]" = PErr ParserError /\ parse_model_nocheck "Y = X[+ 1]" = PErr ParserError /\
+  view_of (parse_model_nocheck "Y = X[ -1 ]") = Some [(Some "Y", TEndogenous, Some "Y[t] = X[t-1]", Some "self._Y[t] = self._X[t-1]"); (Some "X", TExogenous, None, None)].
+Proof. vm_compute. repeat split; reflexivity. Qed.
+
+(* (b) a blank next to the dot of a dotted function name: accepted, but np becomes a variable of the model and sqrt the function *)
+Example dotted_name_blank_refuted :
+  view_of (parse_model_nocheck "Y = np .sqrt(X)")
+  = Some [(Some "Y", TEndogenous, Some "Y[t] = np[t] .sqrt(X[t])", Some "self._Y[t] = self._np[t] .sqrt(self._X[t])");
+          (Some "np", TExogenous, None, None); (Some "sqrt", TFunction, None, None); (Some "X", TExogenous, None, None)] /\
+  view_of (parse_model_nocheck "Y = np.sqrt(X)")
+  = Some [(Some "Y", TEndogenous, Some "Y[t] = np.sqrt(X[t])", Some "self._Y[t] = np.sqrt(self._X[t])"); (Some "np.sqrt", TFunction, None, None); (Some "X", TExogenous, None, None)].
+Proof. vm_compute. split; reflexivity. Qed.
+
+(* (c) the same statement twice: adding a comment to one copy (the trailing blank is stripped only when a "#" is found), or
+   re-spacing a call, makes the script a "defined twice" ParserError *)
+Example duplicate_statement_comment_refuted :
+  view_of (parse_model_nocheck ("Y = X " ++ nl_s ++ "Y = X ")) = Some [(Some "Y", TEndogenous, Some "Y[t] = X[t] ", Some "self._Y[t] = self._X[t] "); (Some "X", TExogenous, None, None)] /\
+  parse_model_nocheck ("Y = X " ++ nl_s ++ "Y = X # c") = PErr ParserError /\
+  parse_model_nocheck ("Y = max(X, Z)" ++ nl_s ++ "Y = max (X,Z)") = PErr ParserError.
+Proof. vm_compute. repeat split; reflexivity. Qed.
+
+(* (d) a form feed is whitespace for the regexes but a line boundary for str.splitlines: outside round brackets it cuts the statement *)
+Example form_feed_outside_brackets_refuted :
+  parse_model_nocheck ("Y = X *" ++ ff_s ++ " Z") = PErr ParserError /\
+  view_of (parse_model_nocheck ("Y = (X *" ++ ff_s ++ " Z)"))
+  = Some [(Some "Y", TEndogenous, Some "Y[t] = (X[t] * Z[t])", Some "self._Y[t] = (self._X[t] * self._Z[t])"); (Some "X", TExogenous, None, None); (Some "Z", TExogenous, None, None)].
+Proof. vm_compute. split; reflexivity. Qed.
+
+(* (e) the layout "brackets beginning on the left-hand side" documented with equation_re: the brackets stay in the code, which is
+   an assignment inside round brackets — no Python statement (with the syntax check on: ParserError) *)
+Example bracketed_statement_refuted :
+  view_of (parse_model_nocheck ("(Y =" ++ nl_s ++ " X)")) = Some [(Some "Y", TEndogenous, Some "(Y[t] = X[t])", Some "(self._Y[t] = self._X[t])"); (Some "X", TExogenous, None, None)].
+Proof. vm_compute. reflexivity. Qed.
